@@ -419,7 +419,13 @@ def eval_history(casbin, part, mode, mname, text, ops, ans, tmp):
                 # the result of the last load before this save; after a load the ENFORCER rejected (role definition) the
                 # model reproduces the open finding F26b (Props/C12 enforcer_rollback_ends_filtered_state_witness), so the
                 # theorems (LoadsOk histories, failed reads, missing file) do not speak about it
-                last = next((obs[j][0] for j in range(i - 1, -1, -1) if ops[j][0] in ("load", "loadf", "loadinc")), "ok")
+                fails = []  # results of the failed loads since the last successful one
+                for j in range(i - 1, -1, -1):
+                    if ops[j][0] in ("load", "loadf", "loadinc"):
+                        if obs[j][0] == "ok":
+                            break
+                        fails.append(obs[j][0].split(":")[0])
+                last = "!roleDefinition" if "!roleDefinition" in fails else (fails[0] if fails else "ok")
                 if mgot != (sres, sfile) and last != "!roleDefinition":
                     part.mvs(dict(case, step=i, model=mgot, spec=(sres, sfile)))
                 if res == "!cannotSaveFiltered":
